@@ -1005,6 +1005,8 @@ func main() {
 				extMtItem(&sb, *repo, it, pc) // ext_mtproto.go
 			case "blockops":
 				extBlockOps(&sb, *repo, it) // ext_blockops.go
+			case "ctxflow":
+				extCtxFlow(&sb, *repo, it) // ext_blockops.go
 			case "switchtable":
 				extSwitchTable(&sb, *repo, it, pc) // ext_switch.go
 			default:
